@@ -828,6 +828,12 @@ func (ctx *RequestContext) Copy() *RequestContext {
 // Next should be used only inside middleware.
 // It executes the pending handlers in the chain inside the calling handler.
 func (ctx *RequestContext) Next(c context.Context) {
+	// Nothing is left to run once the index is past the chain (the chain has finished, or Abort
+	// was called). The index must not be moved any further then: in a long chain whose handlers
+	// call Next more than once it would wrap around int8 and index the chain at -128.
+	if int(ctx.index) >= len(ctx.handlers) {
+		return
+	}
 	ctx.index++
 	for ctx.index < int8(len(ctx.handlers)) {
 		ctx.handlers[ctx.index](c, ctx)
